@@ -77,7 +77,7 @@ class Service:
         self.sse_module_loader = None
         self.edb = None
 
-        if FileManager.check_sid_folder_exist(sid):
+        if FileManager.check_sid_local_file_valid(sid):
             self.config = FileManager.read_service_config(sid)
             self.service_meta = FileManager.read_service_meta(sid)
             self._load_sse_module()
